@@ -25,6 +25,11 @@ MapCells(X, F(_)) == [i \in DOMAIN X |-> [j \in DOMAIN X[i] |-> F(X[i][j])]]
 
 \* --- padding to the requested (0 = longest) length with the fill value ------
 PadCell(s, L, fill) == [k \in 1..L |-> IF k <= Len(s) THEN R(s[k]) ELSE R(fill)]
+\* Lengths learned in fit: p.fit = 0 means the transformer was fitted on the very panel it transforms; otherwise it was
+\* fitted on another panel whose longest (padding) / shortest (truncation) series has length p.fit, and that
+\* fitted length -- not the transformed panel's -- is what a missing pad_length / lower bound stands for
+FitMax(X, p) == IF p.fit = 0 THEN MaxLen(X) ELSE p.fit
+FitMin(X, p) == IF p.fit = 0 THEN MinLen(X) ELSE p.fit
 \* --- truncation to [lo, hi) (hi = 0: to the shortest length lo = 0 -> MinLen) --
 TruncCell(s, lo, hi) == [k \in 1..(hi - lo) |-> R(s[lo + k])]
 \* --- linear interpolation to L points on an equally spaced grid ----------------
@@ -105,8 +110,8 @@ MinMaxSeries(s) ==
 
 Out(c) ==
     LET X == c.X p == c.p IN
-    CASE c.op = "pad" -> MapCells(X, LAMBDA s : PadCell(s, IF p.L = 0 THEN MaxLen(X) ELSE p.L, p.fill))
-      [] c.op = "truncate" -> MapCells(X, LAMBDA s : IF p.hi = 0 THEN TruncCell(s, 0, IF p.lo = 0 THEN MinLen(X) ELSE p.lo)
+    CASE c.op = "pad" -> MapCells(X, LAMBDA s : PadCell(s, IF p.L = 0 THEN FitMax(X, p) ELSE p.L, p.fill))
+      [] c.op = "truncate" -> MapCells(X, LAMBDA s : IF p.hi = 0 THEN TruncCell(s, 0, IF p.lo = 0 THEN FitMin(X, p) ELSE p.lo)
                                                      ELSE TruncCell(s, p.lo, p.hi))
       [] c.op = "interpolate" -> MapCells(X, LAMBDA s : InterpCell(s, p.L))
       [] c.op = "tabularize" -> [i \in DOMAIN X |-> << CatAll([j \in DOMAIN X[i] |-> Cell(X[i][j])]) >>]   \* column, then time
@@ -131,11 +136,11 @@ Out(c) ==
 \* outputs keep one row per instance in input order; length-changing transformers give exactly the requested length
 OneRowPerInstance(c, o) == Len(o) = Len(c.X)
 ExactRequestedLength(c, o) ==
-    CASE c.op = "pad" -> \A i \in DOMAIN o : \A j \in DOMAIN o[i] : Len(o[i][j]) = (IF c.p.L = 0 THEN MaxLen(c.X) ELSE c.p.L)
+    CASE c.op = "pad" -> \A i \in DOMAIN o : \A j \in DOMAIN o[i] : Len(o[i][j]) = (IF c.p.L = 0 THEN FitMax(c.X, c.p) ELSE c.p.L)
       [] c.op = "interpolate" -> \A i \in DOMAIN o : \A j \in DOMAIN o[i] : Len(o[i][j]) = c.p.L
       [] c.op = "paa" -> \A i \in DOMAIN o : \A j \in DOMAIN o[i] : Len(o[i][j]) = c.p.k
       [] c.op = "truncate" -> \A i \in DOMAIN o : \A j \in DOMAIN o[i] :
-                                 Len(o[i][j]) = (IF c.p.hi = 0 THEN (IF c.p.lo = 0 THEN MinLen(c.X) ELSE c.p.lo) ELSE c.p.hi - c.p.lo)
+                                 Len(o[i][j]) = (IF c.p.hi = 0 THEN (IF c.p.lo = 0 THEN FitMin(c.X, c.p) ELSE c.p.lo) ELSE c.p.hi - c.p.lo)
       [] c.op = "intervals" -> \A i \in DOMAIN o : Len(o[i]) = c.p.k
                                   /\ SumI([f \in DOMAIN o[i] |-> Len(o[i][f])]) = Len(c.X[i][1])   \* the intervals tile the series
       [] OTHER -> TRUE
